@@ -20,6 +20,7 @@ class LoopSpec(object):
         self.steps = []          # [(label, expr_ir, text)] two-state clauses checked at the end of one iteration
         self.breaks = []         # [(label, expr_ir, text)] clauses that must hold whenever the loop is left by `break`
         self.unroll = None       # int: concrete unrolling allowed up to this many iterations
+        self.cut_at = None       # int: BOUNDED exploration - a path reaching this many iterations of a concretely unrolled loop is cut (counted)
         self.modifies_extra = [] # extra havoc targets (expression strings)
         self.decreases = None
 
@@ -141,6 +142,12 @@ class LoopSpecBuilder(LoopSpec):
 
     def unroll_up_to(self, n):
         self.unroll = n
+        return self
+
+    def cut_after(self, n):
+        """bounded stand-in: paths with more than n iterations of this (concretely unrolled) loop are not explored; the cuts are
+        counted and reported in the evidence as bounded"""
+        self.cut_at = n
         return self
 
     def also_modifies(self, *paths):
